@@ -421,3 +421,18 @@ Definition q_pos_recipr (x : Qc) : Qc :=
   if Qle_bool (this x) pr_threshold then q0 else Qcdiv (Q2Qc pr_numerator) x.
 Definition q_tstat (eff sd : Qc) : Qc := Qcmult eff (q_pos_recipr sd).
 Definition q_fstat (quad q disp : Qc) : Qc := Qcmult quad (q_pos_recipr (Qcmult q disp)).
+
+(* exact fitted values and residual variance per voxel (for designs where the coefficients themselves are
+   ill determined in floating point: cond up to 1e10), and the comparison with an implementation's
+   fitted values (given by voxel) and s2 *)
+Definition q_ref_fitted (p k : nat) (X Y : list (list Qc)) : option (list (list Qc) * list Qc) :=
+  match q_ref_fit p k X Y with
+  | Some l => Some (map (fun bs => q_mv X (fst bs)) l, map snd l)
+  | None => None
+  end.
+Definition fitted_close (tol : Q) (ref : option (list (list Qc) * list Qc))
+           (fitted_by_voxel : list (list Qc)) (s2 : list Qc) : bool :=
+  match ref with
+  | Some (F, s) => mclose tol F fitted_by_voxel && vclose tol s s2
+  | None => false
+  end.
